@@ -138,3 +138,162 @@ eq(['C06'], 'ranking-reversed-with-min', GWF,
    "            branch.get_latest_commit(), key)\n\n"
    "    statuses = {b.name: status(b) for b in wbranches}\n"
    "    worst = min(")
+
+# ------------------------------------------------------------------- C03
+mut('C03', 'lookup-only-failed', BRANCHES,
+    "                if status != 'SUCCESSFUL':\n"
+    "                    first_failed_pr = qint.pr_id",
+    "                if status == 'FAILED':\n"
+    "                    first_failed_pr = qint.pr_id")
+mut('C03', 'lookup-accepts-inprogress', BRANCHES,
+    "                if status != 'SUCCESSFUL':\n"
+    "                    first_failed_pr = qint.pr_id",
+    "                if status not in ('SUCCESSFUL', 'INPROGRESS'):\n"
+    "                    first_failed_pr = qint.pr_id")
+mut('C03', 'gate-moved-after-merge-block', GWF,
+    "    check_approvals(job)\n    check_build_status(job, wbranches)\n\n"
+    "    interactive = job.settings.interactive",
+    "    check_approvals(job)\n\n"
+    "    interactive = job.settings.interactive")
+mut('C03', 'gate-only-when-not-queue', GWF,
+    "    check_build_status(job, wbranches)\n",
+    "    if not job.settings.use_queue:\n"
+    "        check_build_status(job, wbranches)\n")
+mut('C03', 'force-merge-default-true', JOB,
+    "def __init__(self, force_merge=False, **kwargs):",
+    "def __init__(self, force_merge=True, **kwargs):")
+mut('C03', 'force-merge-from-commit-handler', GWF,
+    "            return queueing.handle_merge_queues("
+    "QueuesJob(bert_e=job.bert_e))",
+    "            return queueing.handle_merge_queues("
+    "QueuesJob(bert_e=job.bert_e,\n"
+    "                force_merge=job.settings.get('force', True)))")
+mut('C03', 'collection-force-default-true', BRANCHES,
+    "getattr(job, 'force_merge', False))",
+    "getattr(job, 'force_merge', True))")
+mut('C03', 'process-skips-lookup', BRANCHES,
+    "                self._recursive_lookup(stack)\n"
+    "                path_mergeable_prs",
+    "                path_mergeable_prs")
+mut('C03', 'process-extract-before-lookup', BRANCHES,
+    "                self._recursive_lookup(stack)\n"
+    "                path_mergeable_prs = self._extract_pr_ids(stack)\n",
+    "                path_mergeable_prs = self._extract_pr_ids(stack)\n"
+    "                self._recursive_lookup(stack)\n")
+mut('C03', 'process-keeps-larger', BRANCHES,
+    "if len(path_mergeable_prs) < len(mergeable_prs):",
+    "if len(path_mergeable_prs) > len(mergeable_prs):")
+mut('C03', 'process-force-inverted', BRANCHES,
+    "        if not self.force_merge:\n            for merge_path",
+    "        if self.force_merge:\n            for merge_path")
+mut('C03', 'isneeded-drop-src-check', QUEUE,
+    "    if not job.git.src_branch.includes_commit(\n"
+    "            job.git.dst_branch.get_latest_commit()):\n"
+    "        return True\n", "")
+mut('C03', 'isneeded-drop-loop-check', QUEUE,
+    "        if not branch.includes_commit(dst_branch.get_latest_commit()):\n"
+    "            return True\n",
+    "        if not branch.exists():\n            return True\n")
+mut('C03', 'isneeded-ignore-queued', QUEUE,
+    "            already_in_queue(job, wbranches) or\n"
+    "            len(queues.queued_prs) > 0):",
+    "            already_in_queue(job, wbranches)):")
+mut('C03', 'merge-queues-oldest', QUEUE,
+    "latest = branches[QueueIntegrationBranch][0]",
+    "latest = branches[QueueIntegrationBranch][-1]")
+mut('C03', 'key-hardcoded', BRANCHES,
+    "                status = self.bbrepo.get_build_status(\n"
+    "                    qint.get_latest_commit(),\n"
+    "                    self.build_key\n                )\n"
+    "                if status != 'SUCCESSFUL':",
+    "                status = self.bbrepo.get_build_status(\n"
+    "                    qint.get_latest_commit(),\n"
+    "                    'pre-merge'\n                )\n"
+    "                if status != 'SUCCESSFUL':")
+mut('C03', 'endpoint-not-admin', APIQ,
+    "    method = 'PATCH'\n    admin = True", "    method = 'PATCH'\n    admin = False")
+eq(['C03'], 'lookup-eq-form', BRANCHES,
+   "                if status != 'SUCCESSFUL':\n"
+   "                    first_failed_pr = qint.pr_id\n"
+   "                    break",
+   "                if status == 'SUCCESSFUL':\n"
+   "                    continue\n"
+   "                first_failed_pr = qint.pr_id\n"
+   "                break")
+
+# ------------------------------------------------------------------- C04
+mut('C04', 'leader-helper-reads-peer', UTILS,
+    "    return (job.settings.bypass_leader_approval or\n"
+    "            job.author_bypass.get('bypass_leader_approval', False))",
+    "    return (job.settings.bypass_peer_approval or\n"
+    "            job.author_bypass.get('bypass_leader_approval', False))")
+mut('C04', 'author-bypass-dropped', GWF,
+    "        not job.settings.need_author_approval or\n"
+    "        bypass_author_approval(job) or\n"
+    "        job.settings.approve\n",
+    "        not job.settings.need_author_approval or\n"
+    "        job.settings.approve\n")
+mut('C04', 'change-requests-dropped', GWF,
+    "            (requires_unanimity and not is_unanimous) or \\\n"
+    "            len(change_requests) > 0:",
+    "            (requires_unanimity and not is_unanimous):")
+mut('C04', 'approve-unconditional', GWF,
+    "    if job.settings.approve:\n"
+    "        approvals.add(job.pull_request.author)\n\n"
+    "    # Exclude Bert-E",
+    "    approvals.add(job.pull_request.author)\n\n"
+    "    # Exclude Bert-E")
+mut('C04', 'peer-ge-to-gt', GWF,
+    "(current_peer_approvals >= required_peer_approvals) and",
+    "(current_peer_approvals > required_peer_approvals) and")
+mut('C04', 'missing-leader-ge', GWF,
+    "            missing_leader_approvals > 0 or \\",
+    "            missing_leader_approvals >= 0 or \\")
+mut('C04', 'gate-removed', GWF,
+    "    check_approvals(job)\n    check_build_status(job, wbranches)",
+    "    check_build_status(job, wbranches)")
+mut('C04', 'gate-after-isneeded', GWF,
+    "    check_approvals(job)\n    check_build_status(job, wbranches)\n",
+    "    check_build_status(job, wbranches)\n")
+mut('C04', 'shortcut-on-wait', GWF,
+    "            not requires_unanimity):\n        return",
+    "            not requires_unanimity) or job.settings.wait:\n"
+    "        return")
+mut('C04', 'unanimity-not-dropped', GWF,
+    "            (requires_unanimity and not is_unanimous) or \\",
+    "            (requires_unanimity and is_unanimous) or \\")
+mut('C04', 'robot-not-excluded', GWF,
+    "    participants -= {username}\n", "")
+mut('C04', 'leader-author-increment-unconditional', GWF,
+    "    if (job.pull_request.author in leaders and\n"
+    "            job.pull_request.author not in approvals):",
+    "    if job.pull_request.author not in approvals:")
+mut('C04', 'author-bypass-keyed-by-robot', JOB,
+    "            self.pull_request.author, {}\n",
+    "            self.settings.robot, {}\n")
+mut('C04', 'settings-validation-dropped', SETTINGS,
+    "        if (data['required_leader_approvals'] >\n"
+    "                len(data['project_leaders'])):",
+    "        if (data['required_leader_approvals'] >\n"
+    "                len(data['project_leaders']) + 1):")
+mut('C04', 'settings-validation-never-raises', SETTINGS,
+    "        if errors:\n            raise ValidationError(errors)",
+    "        if errors and kwargs.get('strict'):\n"
+    "            raise ValidationError(errors)")
+mut('C04', 'early-unconditional-return', GWF,
+    "    requires_unanimity = job.settings.unanimity\n    is_unanimous = True\n",
+    "    requires_unanimity = job.settings.unanimity\n    is_unanimous = True\n"
+    "    if job.settings.no_octopus:\n        return\n")
+mut('C04', 'peers-include-author', GWF,
+    "    peer_approvals = approvals - {job.pull_request.author}\n",
+    "    peer_approvals = approvals\n")
+eq(['C04'], 'reorder-guard-terms', GWF,
+   "    if not approved_by_author or \\\n"
+   "            missing_leader_approvals > 0 or \\\n"
+   "            missing_peer_approvals > 0 or \\",
+   "    if missing_peer_approvals > 0 or \\\n"
+   "            missing_leader_approvals > 0 or \\\n"
+   "            not approved_by_author or \\")
+eq(['C04'], 'rename-username', GWF,
+   "    username = job.settings.robot\n\n    participants",
+   "    username = job.settings.robot\n    LOG.debug('x')\n\n    participants")
